@@ -84,7 +84,7 @@ CHECKS = {
     "C03": {
         "test": "TestC03", "level": "exploration", "engine": "txsig",
         "technique": "property-based testing: encoder injectivity on generated transaction pairs + end-to-end metamorphic mutation of signed transactions on a live application with a twin",
-        "level_text": "Exploration in two layers. (a) For generated transactions of all 8 types with fields over their full ranges and a semantic mutation of 1-3 fields (or of the chain id, incl. prefix/suffix/newline-bearing ids) the signed preimages must differ whenever the executed tuples differ after a protobuf round trip. (b) On a live application with generated prior history: a valid signed tx that would succeed is mutated (any field, payload, signature bytes, malleated signature, claimed sender, other key, other chain id) and delivered; whenever the executed tuple differs from the signed one or the signature does not recover the sender for this chain (recomputed independently with SigToPub over the delivered fields) it must fail and the semantic state digest must equal the twin's that never saw it.",
+        "level_text": "Exploration in two layers. (a) For generated transactions of all 8 types with fields over their full ranges and a semantic mutation of 1-3 fields (or of the chain id, incl. prefix/suffix/newline-bearing ids) the signed preimages must differ whenever the executed tuples differ after a protobuf round trip. (b) On a live application with generated prior history (which itself carries forged transactions of every type - flipped, foreign or missing signatures, other chain id - and in which every accepted transaction must recover its sender): a valid signed tx that would succeed is mutated (any field, payload, signature bytes, malleated signature, claimed sender, other key, other chain id) and delivered; whenever the executed tuple differs from the signed one or the signature does not recover the sender for this chain (recomputed independently with SigToPub over the delivered fields) it must fail and the semantic state digest must equal the twin's that never saw it.",
         "level_note": "ECDSA malleability (r,n-s,v^1) is another valid signature by the same key over the same fields and is allowed to succeed; protobuf re-encodings of the same tuple are outside the statement. Injectivity is shown on generated pairs, not cryptographic unforgeability.",
         "quick": {"checks": 250, "timeout": 600},
         "thorough": {"checks": 1000, "shards": 15, "timeout": 3000},
